@@ -401,7 +401,9 @@ func contextClose(t *tape.Tape, cfg sim.Config) (res sim.Result) {
 	calls := 0
 	var cancel context.CancelFunc
 	var closers gosync.WaitGroup
+	regName, stuckInHost := "", false
 	cause := t.Choose(3)
+	panicAfter := t.Chance(1, 3)
 	_, err := rt.NewHostModuleBuilder("env").NewFunctionBuilder().WithFunc(func() {
 		calls++
 		if calls == k {
@@ -418,6 +420,20 @@ func contextClose(t *tape.Tape, cfg sim.Config) (res sim.Result) {
 			}
 			for i := 0; i < 200000 && !mod.IsClosed(); i++ {
 				time.Sleep(20 * time.Microsecond)
+			}
+			// the call is still inside this host function: the closed module's name must be released without
+			// waiting for the call to come back (two-phase close: allow the watcher a bounded time)
+			if regName != "" && mod.IsClosed() {
+				for i := 0; i < 100000 && rt.Module(regName) != nil; i++ {
+					time.Sleep(20 * time.Microsecond)
+				}
+				if rt.Module(regName) != nil {
+					stuckInHost = true
+				}
+			}
+			if panicAfter {
+				// the cancelled call ends with an error of its own instead of reaching the next exit check
+				panic("host function fails after the module was closed under it")
 			}
 		}
 	}).Export("tick").Instantiate(ctx)
@@ -482,6 +498,7 @@ func contextClose(t *tape.Tape, cfg sim.Config) (res sim.Result) {
 		}
 	}))
 	name := tape.Pick(t, []string{"a", ""})
+	regName = name
 	mod, err = rt.InstantiateModule(nctx, cm, wazero.NewModuleConfig().WithName(name))
 	if err != nil {
 		panic(err)
@@ -494,6 +511,10 @@ func contextClose(t *tape.Tape, cfg sim.Config) (res sim.Result) {
 	res.Logf("cause=%d k=%d name=%q: spin returned an error=%v", cause, k, name, callErr != nil)
 	if callErr == nil {
 		res.Fail("not-closed", "the spinning call returned without error")
+		return
+	}
+	if stuckInHost {
+		res.Fail("closed-module-still-registered", "cause %d: while the cancelled call was still inside a host function, lookup(%q) kept returning the closed module for 2 s", cause, name)
 		return
 	}
 	// several goroutines use the closed module at the same moment (the release deferred to the first later
